@@ -3,6 +3,7 @@ package core
 import (
 	"encoding/json"
 	"fmt"
+	"math"
 	"os"
 	"sort"
 	"sync"
@@ -99,6 +100,16 @@ func (r *Recorder) Count(name string, n int64) {
 }
 
 func (r *Recorder) Max(name string, v float64) {
+	// (JSON has no infinities or NaN: a statistic that overflows must not take the worker down
+	// before the violation behind it is reported)
+	if v != v {
+		return
+	}
+	if v > math.MaxFloat64 {
+		v = math.MaxFloat64
+	} else if v < -math.MaxFloat64 {
+		v = -math.MaxFloat64
+	}
 	r.mu.Lock()
 	if old, ok := r.Maxes[name]; !ok || v > old {
 		r.Maxes[name] = v
